@@ -308,6 +308,11 @@ static bool lammps_factors(double &fpos, double &fforce, std::string &err, int f
     if (flavour == 0) f << "ITEM: ATOMS id type x y z vx vy vz fx fy fz\n1 0 8.0 16.0 32.0 0.0 0.0 0.0 4.0 -2.0 64.0\n";
     if (flavour == 1) f << "ITEM: ATOMS id type xu yu zu vx vy vz fx fy fz\n1 0 8.0 16.0 32.0 0.0 0.0 0.0 4.0 -2.0 64.0\n";
     if (flavour == 2) f << "ITEM: ATOMS id type xs ys zs vx vy vz fx fy fz\n1 0 0.08 0.16 0.32 0.0 0.0 0.0 4.0 -2.0 64.0\n";
+    // second frame with another box (NPT): same Angstrom coordinates, i.e. other scaled values
+    f << "ITEM: TIMESTEP\n2\nITEM: NUMBER OF ATOMS\n1\nITEM: BOX BOUNDS pp pp pp\n0 200.0\n0 200.0\n0 200.0\n";
+    if (flavour == 0) f << "ITEM: ATOMS id type x y z vx vy vz fx fy fz\n1 0 8.0 16.0 32.0 0.0 0.0 0.0 4.0 -2.0 64.0\n";
+    if (flavour == 1) f << "ITEM: ATOMS id type xu yu zu vx vy vz fx fy fz\n1 0 8.0 16.0 32.0 0.0 0.0 0.0 4.0 -2.0 64.0\n";
+    if (flavour == 2) f << "ITEM: ATOMS id type xs ys zs vx vy vz fx fy fz\n1 0 0.04 0.08 0.16 0.0 0.0 0.0 4.0 -2.0 64.0\n";
   }
   bool ok = true;
   std::streambuf *old = std::cout.rdbuf();
@@ -325,7 +330,17 @@ static bool lammps_factors(double &fpos, double &fforce, std::string &err, int f
     std::cout.rdbuf(nullptr);  // the reader is chatty
     reader->Open(file);
     reader->FirstFrame(top);
+    Eigen::Vector3d p_first = top.getBead(0)->getPos(), F_first = top.getBead(0)->getF();
+    bool second = reader->NextFrame(top);
     reader->Close();
+    if (!second || (top.getBead(0)->getPos() - p_first).cwiseAbs().maxCoeff() > 1e-12 ||
+        (top.getBead(0)->getF() - F_first).cwiseAbs().maxCoeff() > 1e-9) {
+      std::cout.rdbuf(old);
+      err = "second frame (other box, same Angstrom coordinates) converted differently from the first";
+      remove(file.c_str());
+      rmdir(dir.c_str());
+      return false;
+    }
     std::cout.rdbuf(old);
     Eigen::Vector3d p = top.getBead(0)->getPos(), F = top.getBead(0)->getF();
     fpos = p.x() / 8.0;
@@ -607,6 +622,31 @@ static Result run_elem(const json &c) {
     }
     return false;
   };
+  // the tables are filled lazily: the answers must not depend on the order in which the accessors are first called on
+  // an object (all six orders of number / charge / mass on fresh objects)
+  {
+    std::string key = "Elements/accessor-order/" + sym;
+    static const int orders[6][3] = {{0, 1, 2}, {0, 2, 1}, {1, 0, 2}, {1, 2, 0}, {2, 0, 1}, {2, 1, 0}};
+    for (auto &o : orders) {
+      vt::Elements e2;
+      long num = -1, crg = -1;
+      double m = -1;
+      try {
+        for (int k : o) {
+          if (k == 0) num = e2.getEleNum(sym);
+          if (k == 1) crg = e2.getNucCrg(sym);
+          if (k == 2) m = e2.getMass(sym);
+        }
+      } catch (const std::exception &ex) {
+        r.fail(key, fmt("accessor order %d%d%d on a fresh Elements object throws for %s: %s", o[0], o[1], o[2], sym.c_str(), ex.what()));
+        break;
+      }
+      if (num != Z || crg != Z || !(m > 0)) {
+        r.fail(key, fmt("accessor order %d%d%d: number %ld charge %ld mass %g for %s (Z=%d)", o[0], o[1], o[2], num, crg, m, sym.c_str(), Z));
+        break;
+      }
+    }
+  }
   // atomic number <-> symbol, nuclear charge
   {
     std::string key = "Elements/number/" + sym;
